@@ -56,9 +56,13 @@ def main():
                 if rq.get("omit_dense") and set(f) <= set("d"):
                     continue  # unmentioned tensors must be assumed dense
                 args += ["-f", f"{n}:{f}"]
-            for k in rq["kinds"]:
-                args += ["-t", k]
-            args += ["-l", rq["language"]]
+            # defaults: one compute kernel, language c - omitted on every second probe
+            use_defaults = (i % 2 == 0)
+            if not (use_defaults and rq["kinds"] == ["compute"]):
+                for k in rq["kinds"]:
+                    args += ["-t", k]
+            if not (use_defaults and rq["language"] == "c"):
+                args += ["-l", rq["language"]]
             res = runner.invoke(app, args)
             cli["checked"] += 1
             if res.exit_code != 0 or res.stdout != texts[i] + "\n":
